@@ -21,10 +21,10 @@ CLAIMED = {
             "Decides that the equations registered for every link type and status are the documented head-flow relations (closed => q = 0, "
             "orientation, H-W + minor loss odd and increasing, breakpoint C0/C1 agreement of smoothing polynomials with constants.py, pump and "
             "valve laws, coefficient formulas and their update triggers), that effective status is the documented function of user/internal "
-            "status and that check valves close on any reverse flow beyond tolerance.",
+            "status and that check valves close on any reverse flow beyond tolerance. The internal status conditions decide on the state at the time of evaluation (differential, interpreted, 15 classes x 10 state changes); 3-point pump curves reproduce their points.",
             "Does not decide that the reported solution satisfies the equations (needs the Newton solver and the compiled evaluator, see C15/C16), "
             "the curve_fit quality of >=3-point pump curves, the monotonicity of the head-pump smoothing cubic (checked at run time by WNTR) or "
-            "the complete PRV/PSV status automaton. Trusts sympy normal forms and sa/symx.py.", "DESIGN.md §4 C02"),
+            "the complete PRV/PSV status automaton. Trusts sympy normal forms and sa/symx.py. ", "DESIGN.md §4 C02"),
     "C03": ("table extraction from BinFile.read (result table -> conversion parameter, first argument, data column; masked link-type slices), "
             "conversion classes computed from C17's reference factors, abstract execution of the masked status assignments over all eight codes, "
             "argument agreement of the write / open / read calls in EpanetSimulator.run_sim",
@@ -89,28 +89,28 @@ CLAIMED = {
             "Decides the necessary structural clause: every piece of simulator state carried from one iteration to the next is re-derived from "
             "the model when a new simulator continues a paused run (rule clock, isolated sets, internal graph, control managers, change tracker), "
             "model-side run-time state lives in plain picklable attributes and is overwritten before the loop only on a first step, first_step is "
-            "sim_time == 0, and the loop leaves only after the time advance back to the hydraulic grid.",
+            "sim_time == 0, and the loop leaves only after the time advance back to the hydraulic grid. Nothing but a control's type decides whether a new simulator registers it.",
             "Does not decide numerical equality of concatenated results. 'Reads the model' is a syntactic criterion (mentions self._wn); that the "
-            "derivation is the right one was confirmed by experiment for the two repaired defects only.", "DESIGN.md §4 C10"),
+            "derivation is the right one was confirmed by experiment for the two repaired defects only. ", "DESIGN.md §4 C10"),
     "C11": ("effect analysis: transitive attribute-write sets of both simulators over a name-and-receiver based call graph (sa/effects.py), compared "
             "with definition / run-time field sets derived from the class table to_dict walks; setattr targets resolved through "
             "ControlAction.__init__'s attribute map over every attribute string passed in the package; reset-coverage table comparison",
             "Decides that no code reachable from WNTRSimulator or EpanetSimulator (incl. the INP writer and the binary reader) stores into a "
             "definition field of any element, pattern, curve, source, option, control, condition or action; that the only option store made "
             "around an internal simulation (skeletonize) is restored; and that every run-time field a run writes on an element kind is "
-            "re-initialised by reset_initial_values with the construction-time value, controls included (recursively through And/Or).",
+            "re-initialised by reset_initial_values with the construction-time value, controls included (recursively through And/Or). The INP writer reads no run-time state.",
             "Does not decide bit-for-bit reproducibility. Call resolution is by naming convention (unresolved calls are counted, bound 12 %); "
             "constructors of new objects are not followed as mutations; property getters are assumed pure. One known finding: a pump-speed "
-            "control (attribute base_speed) writes the definition property.", "DESIGN.md §4 C11"),
+            "control (attribute base_speed) writes the definition property. ", "DESIGN.md §4 C11"),
     "C12": ("sibling cross-check of InpFile._write_X / _read_X: unit-conversion sites followed by abstract interpretation into file columns / "
             "keywords / discriminators and joined; conversion classes from C17's partial evaluator; ordering and discriminator-column rules; "
             "six-way map comparison for rule clauses",
             "Decides that writer and reader agree, section by section and column by column, on which unit class a field carries (inverse "
             "conversions with equal flags), selected by which discriminator read from which column, that option-dependent lines follow the "
             "option, that rules and simple controls convert thresholds/settings with one attribute->unit map on both sides, that 2.0-format "
-            "files omit only the 2.2 options, and that the time-string helpers are inverse.",
+            "files omit only the 2.2 options, and that the time-string helpers are inverse. Additionally, bounded to one rich fixture model: the write -> read -> write -> read round trip in all ten flow-unit systems and both INP versions preserves elements, patterns, used curves, sources, options, controls and rules to file precision (interpreted by the in-house interpreter).",
             "Does not decide text formatting precision, idempotence of a second cycle, write guards relying on EPANET defaults, nor models the "
-            "API can build that INP cannot express. [REPORT]/[BACKDROP]/[LABELS] are outside the statement.", "DESIGN.md §4 C12"),
+            "API can build that INP cannot express. [REPORT]/[BACKDROP]/[LABELS] are outside the statement. The fixture round trip decides its clause on that model only.", "DESIGN.md §4 C12"),
     "C13": ("serializer/deserializer agreement over tables extracted from the AST: keys the generic to_dict can emit are derived from the class "
             "table (properties, setters, exclusion lists, API writers of backing fields) and joined with the keys each from_dict branch reads and "
             "the attribute each lands in (through add_* signatures and registry assignments); tuple-only setter tests vs conversions; control "
@@ -118,32 +118,32 @@ CLAIMED = {
             "Decides that every API-settable key to_dict emits for junctions, tanks, reservoirs, pipes, pumps, valves, patterns, curves, sources "
             "and demand entries is read back by from_dict into the attribute of the same name, that JSON lists are converted where a setter "
             "insists on tuples, that leak-action lines of every leak-capable node kind are read as node actions, that control text is re-read "
-            "in SI, that each options class accepts exactly its own keys, and that enum-valued keys are emitted as strings their consumer accepts.",
+            "in SI, that each options class accepts exactly its own keys, and that enum-valued keys are emitted as strings their consumer accepts. Additionally, bounded to one rich fixture model built through the public API: to_dict -> JSON -> from_dict -> to_dict gives equal dictionaries section by section and appending equals creating (interpreted by the in-house interpreter).",
             "Does not decide value equality of arbitrary models. Eight known findings: simple controls are re-read through EPANET's [CONTROLS] "
             "grammar, which drops the relation / attribute tokens (>=, <=, =, <>, HEAD, FLOW, SETTING...). Rule conditions outside EPANET's rule "
-            "grammar are not analysed.", "DESIGN.md §4 C13"),
+            "grammar are not analysed. The fixture round trip decides its clause on that model only.", "DESIGN.md §4 C13"),
     "C14": ("registry-invariant analysis over the AST: add_usage/remove_usage pairing tables, typed-subset add/discard set comparison, "
             "statement-order (must-precede) rules in __delitem__, view-accessor resolution",
             "Decides, for every mutating registry operation, that it preserves the invariant 'all views agree' (usage pairing per registry and tag, "
-            "typed subsets, refusal before mutation, one store per view); histories are covered by induction over single operations.",
+            "typed subsets, refusal before mutation, one store per view); histories are covered by induction over single operations. Refusals are atomic (duplicate names, missing end nodes, elements a control requires, same-value re-assignment), decided on interpreted histories on the repository's own registries.",
             "Trusts CPython's ast and the extractor's resolution of self.<registry> receivers; does not execute edit histories; "
-            "dynamic attribute access other than the __subsets/getattr idiom is not resolved.", "DESIGN.md §4 C14"),
+            "dynamic attribute access other than the __subsets/getattr idiom is not resolved. The histories are a finite family; that longer histories compose is not decided.", "DESIGN.md §4 C14"),
     "C15": ("cross-checking sibling implementations: Python opcode enum vs C++ const table, per-opcode agreement of the C++ stack-machine branch "
             "(arity, pop order, result) with get_rpn's emission order (abstract interpretation over leaf/non-leaf cases) and the Python operation; "
             "sympy differentiation of each operator's operation vs its diff_down rule; map-ownership and increment/record/decrement pairing rules",
             "Decides that the Python front end and the C++ evaluator agree on opcodes, operand order and semantics for all 18 operators, that every "
             "reverse-mode derivative rule is der * d(op)/d(operand), that reflected operators keep operand order, that leaf reference counting is "
-            "paired and uses the right map, and that attribute deletion un-registers what attribute assignment registered.",
+            "paired and uses the right map, and that attribute deletion un-registers what attribute assignment registered. Additionally, bounded to fixtures: expressions with shared sub-expressions built and differentiated by the repository's own code agree with sympy, and an aml.Model edited through an add / remove / value-change history hands a Python model of the compiled evaluator programs whose residuals and Jacobian entries are the true ones at the reported indices, with consistent reference counts.",
             "Does not decide floating-point behaviour, the SWIG wrapper, memory safety, or the CSR index arithmetic of set_structure / "
-            "evaluate_csr_jacobian (shape not robustly extractable: dropped rule R-C15-6). C++ is read by a small tokenizer (sa/cxx.py).", "DESIGN.md §4 C15"),
+            "evaluate_csr_jacobian (shape not robustly extractable: dropped rule R-C15-6). C++ is read by a small tokenizer (sa/cxx.py). The histories are decided on the fixtures only; sa/mockeval.py models the evaluator protocol and is part of the trusted base.", "DESIGN.md §4 C15"),
     "C16": ("path rules (must-pass-through, must-not-reach, dominance) on a hand-built statement CFG of run_sim, NewtonSolver.solve and "
             "_solver_helper; per-path append counting in save_results by abstract interpretation; family/key table comparison",
             "Decides that no path stores/saves/appends a step whose last solve failed, that every failure exit raises (iff convergence_error) or "
             "warns + sets error_code + leaves the loop, that solve returns a status triple on every exit and `converged` only under the tolerance "
             "test, that each saved row gets exactly one time stamp, that all result families/keys are appended once per element per save and "
-            "labelled from the same name list, and that time or the bounded trial counter strictly advances on every way round the loop.",
+            "labelled from the same name list, and that time or the bounded trial counter strictly advances on every way round the loop. Failure signals of the external numerical routines called in the solve path are covered by the handlers that report SolverStatus.error (table of library contracts); the result tables hold, per saved step, what the elements had (one mock model).",
             "Does not decide finiteness of the numbers nor termination when back-tracking keeps inserting partial steps. Implicit exceptions "
-            "(other than explicit raise / try-except edges) are not modelled.", "DESIGN.md §4 C16"),
+            "(other than explicit raise / try-except edges) are not modelled. The table of library contracts is part of the trusted base.", "DESIGN.md §4 C16"),
     "C17": ("partial evaluation (constant folding with the value as a linear form k*x+c) of the conversion branch tree for every "
             "(parameter, flow unit, darcy_weisbach, mass unit, reaction order) configuration; table comparison with physical definitions",
             "Exhaustive over the finite configuration space: every configuration is linear, k_to*k_from = 1, and k_to equals the reference "
@@ -171,9 +171,9 @@ CLAIMED = {
             "coordinates (with and without vertices), copy diameter / roughness / minor loss into the right parameters, give the new pipe no "
             "check valve, refuse bad input before mutating, never touch the caller's model when return_copy is true, and that skeletonize removes "
             "only small unexcluded pipes and unexcluded junctions, excludes everything a control requires, hands demands and map entries of a "
-            "removed junction to one retained Junction before removing it, and restores the duration it changes.",
+            "removed junction to one retained Junction before removing it, and restores the duration it changes. The constructor of the skeletonizer (exclusion lists, initial map, head losses, duration restored) is decided by an interpreted run on one mock model.",
             "Does not decide hydraulic equivalence after a split, the merge formulas for roughness / diameter, nor pattern-usage bookkeeping of "
-            "moved demand entries.", "DESIGN.md §4 C19"),
+            "moved demand entries. ", "DESIGN.md §4 C19"),
     "C20": ("formula extraction of the metric functions into sympy terms (pandas selections as uninterpreted leaves; references evaluated through the "
             "same extractor); CFG rule for loops that never iterate; call-site argument dataflow for the demand clock; AST rule for the "
             "percentage convention; docstring-table vs default-table comparison",
